@@ -13,7 +13,7 @@ int main(int argc, char **argv) {
   long encodes = 0, enc_failed = 0, geos = 0; std::map<std::string, long> paths;
   int nm = thorough ? 30000 : 2000;
   for (int i = 0; i < nm; i++) {
-    GenInfo gi; auto m = gen_mesh(r, i % 5, gi); if (!m) continue; geos++;
+    GenInfo gi; auto m = gen_mesh(r, i % 6, gi); if (!m) continue; geos++;
     int qp = r.chance(15) ? (int)r.range(15, 20) : (int)r.range(8, 14), qt = (int)r.range(8, 12), qn = (int)r.range(4, 10);   // (bit counts >= 24 are exercised by C04's harness: symbol tables for 2^30-sized values make the sequential reference very slow)
     auto configure = [&](Encoder &e, const Variant &v) { e.SetEncodingMethod(v.method); e.SetSpeedOptions(v.speed, v.speed);
       e.SetAttributeQuantization(GeometryAttribute::POSITION, qp); e.SetAttributeQuantization(GeometryAttribute::TEX_COORD, qt); e.SetAttributeQuantization(GeometryAttribute::NORMAL, qn);
